@@ -57,6 +57,10 @@ claim("C13", "finite-domain abstract interpretation of both precedence computati
       "Decides C13.1 (both precedence functions are strictly increasing destination-first, source-second over their whole domain and agree), C13.2 (the sorter compares precedence descending and one field per tie-break), C13.3 (7 list-assembling functions: sorted here or by every caller), C13.4 (first match decides), C13.5 (precedence recomputed unconditionally on normalisation and on legacy writes). Wildcard expansion of IntentionMatch for all pairs is not decided.",
       "DESIGN.md section 3 C13")
 
+claim("C11", "lockset analysis (must-held locks per instruction, caller-holds escalation) over the publisher, subscription table and materializer; lock-order rule; edge-cut dominance and must-pass-through rules on the event generators, the subscription reader, the subscribe endpoint and the client handlers; registry agreement between emitted topics and registered snapshot handlers; value provenance of indexes in splice and view update",
+      "Decides the synchronisation and completeness skeleton only: C11.1 (generate before, publish after the memdb commit), C11.2 (guarded fields only under their lock; snapshot+splice+registration in one critical section; lock order), C11.3 (forced resubscription wiring from ACL/restore events to the client's reset), C11.4 (client applies snapshots atomically, resets on NewSnapshotToFollow, index only from accepted deliveries), C11.5 (every emitted topic has a snapshot handler), C11.6 (generators complete over the change kinds they distinguish: rename/destination fix-up before any early exit, deletes, mapped config entries, errors abort), C11.7 (splice at the first strictly larger index; resume only at the head; stale index gets NewSnapshotToFollow). Not decided: equality of the materialised view with the direct query under every schedule and history, the commit/publish window across transactions, the lock-free buffer.",
+      "DESIGN.md section 3 C11")
+
 claim("C12", "edge-cut dominance of parsing and signing by the CSR shape checks; per-identity-kind typestate over the authorization switch (right ACL question on the identity's own field, error returned, datacenter-equal edge) with exhaustiveness over the implementations of connect.CertURI; edge-cut guard of the provider's Sign by CanSign; value provenance of every x509 template's serial number to the replicated counter (through callers); who-may-write and guard dominance on the roots table; escape rule: no store through a pointer that a state-store reader hands out as the stored row",
       "Decides C12.1 (one URI, no e-mail SAN, successful parse before signing), C12.2 (service/agent/gateway/server: …WriteAllowed on the identity's own name with its error returned; any other CertURI implementation is rejected; CanSign or trust-domain rewrite in the signing step), C12.3 (datacenter equality for service, gateway, server), C12.4 (serial numbers from the replicated counter; leaf template not a CA), C12.5 (roots table written only by the CAS setter below the exactly-one-active check, and by restore), C12.6 (no in-place mutation of stored rows anywhere in agent/consul, which is what keeps a failed rotation from deactivating the active root). Not decided: that the issued certificate verifies against the active root, provider template handling outside the built-in provider, and rotation atomicity beyond the single-transaction write.",
       "DESIGN.md section 3 C12")
